@@ -44,6 +44,12 @@ def make(rng, S):
         flat = [rng.uniform(-3, 3) for _ in range(n * L)]
         P = xs[-1] - xs[0]
         base = [xs[0], xs[-1], vlib.next_up(xs[0]), vlib.next_down(xs[-1]), xs[1], rng.uniform(xs[0], xs[-1])]
+        # one and a few floats *outside* either range end (seed C07-r10m1: the wrapped value of a query an ulp below the first knot rounds
+        # up to the last knot; a lookup that trusts "the wrapped query is inside the range" reads past the axis)
+        lo_, hi_ = xs[0], xs[-1]
+        for _ in range(rng.choice([1, 1, 2, 4])):
+            lo_, hi_ = vlib.next_down(lo_), vlib.next_up(hi_)
+        base += [lo_, hi_]
     flat[(n - 1) * L:] = flat[:L]
     return shape, xs, flat, P, base, L
 
@@ -133,7 +139,7 @@ def oracle(case, res):
             for g, r in zip(got, ref):
                 if not math.isfinite(g) or abs(g - r) > tol:
                     # a point next to a range end may wrap to the other end: compare with both end values
-                    if b in (0, 1, 2, 3) and any(abs(g - e) <= tol for e in m["first"]):
+                    if b in (0, 1, 2, 3, 6, 7) and any(abs(g - e) <= tol for e in m["first"]):
                         continue
                     return f"S(x + {m['ks'][j]}*P) = {g} differs from S(x) = {r} by more than {tol:.3e}"
     return None
